@@ -136,7 +136,7 @@ def corner_schemas():
         E("numbers", "uint8", [("One", 1), ("Two", 2)]),
         S("options", "uint8", [("A", 0), ("B", 2)]),
         T("str16", "char", length=16),
-        C("compA", [T("number", "uint32"), T("arr", "uint8", length=3), E("en", "uint16", [("X", 7)]), S("st", "uint16", [("c0", 0), ("c12", 12)]), R("again", "u32opt")]),
+        C("compA", [T("number", "uint32"), T("arr", "uint8", length=3), E("en", "uint16", [("X", 7)]), S("st", "uint16", [("c12", 12), ("c0", 0), ("c15", 15)]), R("again", "u32opt")]),
     ]
     lvl_fields = [F("builtin", "uint32"), F("number", "u32req"), F("enumeration", "numbers"), F("set", "options"), F("array", "str16"), F("composite", "compA")]
     out.append(schema("conv", "littleEndian", header(), common, [
@@ -169,11 +169,17 @@ def corner_schemas():
                             [D("blob", "data64"), D("note", "data8")], block_length="+3"),
                           M("big1", [], [G("g", "dim_64_64", [F("q", "double")])], []),
                           M("big2", [F("only", "uint64")]),
+                          # reserved space: entries without members / with constants only but an explicit blockLength
+                          M("big3", [F("k", "cst")],
+                            [G("reserved", "dim_64_64", [], [], [], block_length="+6"),
+                             G("konly", "dim_8_32", [F("k", "cst")], [], [], block_length="+4"),
+                             G("outer2", "dim_8_32", [F("a", "uint8")], [G("reserved_in", "dim_64_64", [], [], [], block_length="+3")], [D("t", "data8")])],
+                            [D("tail", "data8")], block_length="+5"),
                       ]))
     # 3. tiny dimension types: uint8/uint8 dims, uint8 header blockLength, uint16 data length
     out.append(schema("tiny", "littleEndian", header("h8", bl=1, tid=1, sid=1, ver=1),
                       [dimension("d88", 1, 1), dimension("d16_8", 2, 1), vardata("v16", 2), vardata("v8", 1),
-                       E("ce", "char", [("A", "A"), ("B", "B")]), S("s64", "uint64", [("lo", 0), ("hi", 63)]), S("s32", "uint32", [("b31", 31)])],
+                       E("ce", "char", [("A", "A"), ("B", "B")]), S("s64", "uint64", [("hi", 63), ("lo", 0), ("mid", 31), ("mid2", 32)]), S("s32", "uint32", [("b31", 31)])],
                       [
                           M("t0", [F("c", "char"), F("e", "ce"), F("s", "s64"), F("o", "int8", presence="optional")],
                             [G("a", "d88", [F("x", "uint8")], [], [D("p", "v8")]), G("b", "d16_8", [F("y", "s32")])],
@@ -246,7 +252,12 @@ def random_schema(seed, idx):
     for i in range(r.range(0, 2)):
         enc = r.pick(["uint8", "uint16", "uint32", "uint64"])
         bits = PRIMS[enc] * 8
-        t = S(nm("st"), enc, [("c%d" % b, b) for b in sorted({r.below(bits) for _ in range(r.range(1, 3))})])
+        chosen = sorted({r.below(bits) for _ in range(r.range(1, 4))})
+        if r.chance(1, 2):
+            chosen.reverse()  # declaration order need not be bit order
+        elif len(chosen) > 2 and r.chance(1, 2):
+            chosen[0], chosen[1] = chosen[1], chosen[0]
+        t = S(nm("st"), enc, [("c%d" % b, b) for b in chosen])
         types.append(t)
         sets.append(t)
     consts = []
